@@ -126,6 +126,7 @@ struct Task {
     in_syscall: bool,
     entry: Regs,
     pending_ret: Option<i64>,
+    pending_post: bool,
     born_seq: u64,
     parent_tgid: i32,
     seen_stop: bool,
@@ -576,7 +577,7 @@ fn main() {
                         if j.nr != u64::MAX && j.nr != nr {
                             continue; // u64::MAX (-1) = any system call number
                         }
-                        let in_sc = match j.scope {
+                        let in_sc = match j.scope & 15 {
                             0 => j.owner_tid == tid,
                             1 => j.owner_tgid == tg,
                             2 => parent == j.owner_tgid && born > j.armed_seq && tg != j.owner_tgid,
@@ -594,14 +595,21 @@ fn main() {
                     }
                     if let Some(ix) = hit {
                         let ret = injects[ix].ret;
+                        // scope + 16: the call is EXECUTED and only its result is replaced afterwards (what the
+                        // kernel does for close(): the descriptor is gone although the caller is told EINTR)
+                        let post = injects[ix].scope & 16 != 0;
                         injects[ix].count -= 1;
                         if injects[ix].count <= 0 {
                             injects.remove(ix);
                         }
-                        let mut r2 = regs;
-                        r2.orig_rax = u64::MAX;
-                        unsafe {
-                            ptrace(PTRACE_SETREGS, tid, 0, &r2 as *const Regs as usize);
+                        if post {
+                            t.pending_post = true;
+                        } else {
+                            let mut r2 = regs;
+                            r2.orig_rax = u64::MAX;
+                            unsafe {
+                                ptrace(PTRACE_SETREGS, tid, 0, &r2 as *const Regs as usize);
+                            }
                         }
                         t.pending_ret = Some(ret);
                     }
@@ -621,15 +629,21 @@ fn main() {
                 let tg = t.tgid;
                 let nr = e.orig_rax;
                 let mut ret = regs.rax as i64;
-                let mut flag = "-";
+                let mut flag = String::from("-");
                 if let Some(pr) = t.pending_ret.take() {
                     let mut r2 = regs;
                     r2.rax = pr as u64;
                     unsafe {
                         ptrace(PTRACE_SETREGS, tid, 0, &r2 as *const Regs as usize);
                     }
-                    ret = pr;
-                    flag = "i";
+                    if t.pending_post {
+                        // executed: the log keeps the kernel's real result, the flag carries what the caller was told
+                        t.pending_post = false;
+                        flag = format!("p{pr}");
+                    } else {
+                        ret = pr;
+                        flag = String::from("i");
+                    }
                 }
                 if nr != MARK_NR
                     && (!scope_markers || in_scope.get(&tg).copied().unwrap_or(0) > 0 || scoped_child(&tasks, &in_scope, tid))
